@@ -46,6 +46,7 @@ type Config struct {
 	MaxSteps int
 	// fault weights (relative to deliver = 100) and knobs
 	WTimer, WDrop, WDup, WCrash, WPart, WStarve, WTrig, WSync int
+	WHold                                                     int // C07: delay the cert traffic of a node's current round (it lags while next-round messages pile up)
 	ReorderPct, ReorderWin                                    int
 	RelayKeepPct                                              int
 	MaxCrashes                                                int
@@ -75,6 +76,8 @@ type Node struct {
 	starve    int
 	crashes   int
 	factoryID int64
+	holdRound basics.Round // "hold" fault: cert-step votes and bundles of this round addressed to the node are delayed ...
+	holdUntil int          // ... until this scheduler step (the node lags one round behind while receiving next-round traffic)
 	persisted []persistRow // C02: every state ever persisted to this node's crash DB, as pending attests
 	histSeen  int64
 
@@ -87,20 +90,20 @@ type Node struct {
 }
 
 type flight struct {
-	id   int
-	from int
-	to   int
-	tag  protocol.Tag
-	data []byte
-	key  string
-	at   time.Duration // sync phase: delivery time (global)
+	id    int
+	from  int
+	to    int
+	tag   protocol.Tag
+	data  []byte
+	key   string
+	at    time.Duration // sync phase: delivery time (global)
 	craft bool
 	// decoded header (votes and bundles), used by the fork-hunting scheduler policy
 	notBefore int // scheduler step before which this flight cannot be delivered (slow large messages)
-	hasHdr bool
-	vr     basics.Round
-	vp, vs uint64
-	vval   PValue
+	hasHdr    bool
+	vr        basics.Round
+	vp, vs    uint64
+	vval      PValue
 }
 
 // Sim is one run.
@@ -122,51 +125,51 @@ type Sim struct {
 	honest   map[basics.Address]int // account -> owner node id (honest owners only)
 
 	// canonical history (oracles)
-	commits   map[basics.Round]map[crypto.Digest]string // round -> digest -> who
-	canon     map[basics.Round]bookkeeping.Block
-	canonCert map[basics.Round]agreement.Certificate
-	blocks    map[crypto.Digest]bookkeeping.Block
-	origin    map[string]map[PValue]string // C02: acct|r|p|s -> values originated
-	emitted   map[string]bool              // sha of every vote body an honest key holder put on the wire
-	states    map[string]bool
-	stats     map[string]int64
-	viol      *kernel.Violation
-	harness   string
-	crashes   int
-	simTime   time.Duration
-	global    time.Duration // sync-phase global time
-	syncMode  bool
-	gstStep   int
-	oracles   []oracle
-	never     chan struct{}   // created inside the bubble
-	sync      *syncState
-	maxPeriod map[basics.Round]uint64 // highest period seen in honest-originated votes per round
-	batchOwn  map[int][]UVote // own attest votes emitted in the reaction being collected
-	batchSeq  map[int][]int64 // C02: per entry of batchOwn, the crash DB's persist count when the vote left
-	curHseq   int64
-	shadowSeq int
-	hunt        *hunt
-	huntSeen    map[string]*huntObs
-	ghostSent   map[string][]PValue // ghost account|r|p|step -> values already voted
+	commits      map[basics.Round]map[crypto.Digest]string // round -> digest -> who
+	canon        map[basics.Round]bookkeeping.Block
+	canonCert    map[basics.Round]agreement.Certificate
+	blocks       map[crypto.Digest]bookkeeping.Block
+	origin       map[string]map[PValue]string // C02: acct|r|p|s -> values originated
+	emitted      map[string]bool              // sha of every vote body an honest key holder put on the wire
+	states       map[string]bool
+	stats        map[string]int64
+	viol         *kernel.Violation
+	harness      string
+	crashes      int
+	simTime      time.Duration
+	global       time.Duration // sync-phase global time
+	syncMode     bool
+	gstStep      int
+	oracles      []oracle
+	never        chan struct{} // created inside the bubble
+	sync         *syncState
+	maxPeriod    map[basics.Round]uint64 // highest period seen in honest-originated votes per round
+	batchOwn     map[int][]UVote         // own attest votes emitted in the reaction being collected
+	batchSeq     map[int][]int64         // C02: per entry of batchOwn, the crash DB's persist count when the vote left
+	curHseq      int64
+	shadowSeq    int
+	hunt         *hunt
+	huntSeen     map[string]*huntObs
+	ghostSent    map[string][]PValue // ghost account|r|p|step -> values already voted
 	ghostEqStake uint64
-	ghostEq     map[int]bool
-	avv         *agreement.AsyncVoteVerifier
-	avvPool     *simPool
-	known       []kernel.Violation
-	twin        *twin
-	twinSeq     int
-	persistSeen int
-	nextTwinAt  int
-	origEffects map[int][]string
-	tallyOn     bool
-	tallies     map[int]map[string]*stepTally
-	refW        map[string]uint64
-	refBundleOK map[string]bool
-	seenVotes   []UVote   // reference-valid honest votes observed on the wire (material for the adversary)
-	seenBundles []UBundle // bundles observed on the wire
-	seenRaw     []outMsg  // raw messages (replay / corruption material)
-	values      map[basics.Round][]PValue
-	shadowTick int
+	ghostEq      map[int]bool
+	avv          *agreement.AsyncVoteVerifier
+	avvPool      *simPool
+	known        []kernel.Violation
+	twin         *twin
+	twinSeq      int
+	persistSeen  int
+	nextTwinAt   int
+	origEffects  map[int][]string
+	tallyOn      bool
+	tallies      map[int]map[string]*stepTally
+	refW         map[string]uint64
+	refBundleOK  map[string]bool
+	seenVotes    []UVote   // reference-valid honest votes observed on the wire (material for the adversary)
+	seenBundles  []UBundle // bundles observed on the wire
+	seenRaw      []outMsg  // raw messages (replay / corruption material)
+	values       map[basics.Round][]PValue
+	shadowTick   int
 }
 
 type oracle interface {
@@ -328,6 +331,7 @@ func drawConfig(tp *kernel.Tape, prop, tier string) Config {
 		c.TwinGap = tp.Range("cfg.twingap", 1, 12)
 		c.TwinHorizon = tp.Range("cfg.twinhorizon", 20, 600)
 		c.WStarve = tp.Range("cfg.w.starve7", 2, 8) // lagging nodes hold pipelined next-round state
+		c.WHold = tp.Range("cfg.w.hold", 0, 6)
 	}
 	if prop == "C05" {
 		c.Sync = true
@@ -692,6 +696,9 @@ func (s *Sim) deliverable() []int {
 	for i, f := range s.inflight {
 		d := s.nodes[f.to]
 		if d.alive && d.starve == 0 && s.linkOK(f.from, f.to) && f.notBefore <= s.step {
+			if d.holdUntil > s.step && f.hasHdr && f.vr == d.holdRound && f.vs == stepCert {
+				continue // delayed, not lost
+			}
 			idx = append(idx, i)
 			if len(idx) >= 64 {
 				break
@@ -776,6 +783,9 @@ func (s *Sim) lagging() []*Node {
 	var l []*Node
 	for _, n := range s.nodes {
 		if !n.alive {
+			continue
+		}
+		if n.holdUntil > s.step && n.led.next() == n.holdRound {
 			continue
 		}
 		if _, ok := s.canon[n.led.next()]; ok {
@@ -879,8 +889,9 @@ func (s *Sim) asyncStep() {
 		fPart
 		fStarve
 		fCraft
+		fHold
 	)
-	fw := make([]int, 8)
+	fw := make([]int, 9)
 	fw[fNone] = 1000
 	if len(del) > 0 {
 		fw[fDrop] = c.WDrop
@@ -895,6 +906,9 @@ func (s *Sim) asyncStep() {
 		fw[fPart] = 4 // partitions heal after a few hundred steps on average
 	}
 	fw[fStarve] = c.WStarve
+	if len(honestAlive) > 0 {
+		fw[fHold] = c.WHold
+	}
 	if c.Craft && (c.AdvInst > 0 || c.Ghost) {
 		fw[fCraft] = 15
 		if c.Ghost {
@@ -963,6 +977,14 @@ func (s *Sim) asyncStep() {
 		n.starve = 5 + rB%116
 		s.log.Add("starve n%d for %d", n.id, n.starve)
 		s.stat("stall", 1)
+		return
+	case fHold:
+		n := honestAlive[rA%len(honestAlive)]
+		if n.holdUntil <= s.step {
+			n.holdRound, n.holdUntil = n.led.next(), s.step+200+rB%1500
+			s.log.Add("hold cert traffic of r%d to n%d until step %d", n.holdRound, n.id, n.holdUntil)
+			s.stat("hold", 1)
+		}
 		return
 	case fCraft:
 		if c.Ghost {
